@@ -140,6 +140,14 @@ static void split_before_chunk(Chunk *pc)
 
    Chunk *prev = pc->GetPrev();
 
+   // The parenthesis that opens the parameter list of a function-like macro
+   // has to stay attached to the macro name: '#define F (x)' is another macro.
+   if (  pc->Is(CT_FPAREN_OPEN)
+      && prev->Is(CT_MACRO_FUNC))
+   {
+      return;
+   }
+
    if (  !pc->IsNewline()
       && !prev->IsNewline())
    {
